@@ -21,3 +21,14 @@ package store
 //@   ensures identity [C04]: !storeIdentityCIDs && err == nil && mhtype(c) == 0 ==> result0
 //@   ensures whole [C04]: err == nil && blockstoreUseWholeCIDs && !(!storeIdentityCIDs && mhtype(c) == 0) ==> result0 == byCid(idx, c)
 //@   ensures by_multihash [C04]: err == nil && !blockstoreUseWholeCIDs && !(!storeIdentityCIDs && mhtype(c) == 0) ==> result0 == byMh(idx, mhof(c))
+
+//@ func Finalize
+//@   let _, werr := call[index.WriteTo#0]
+//@   let fi, ferr := call[InsertionIndex.Flatten#0]
+//@   call[InsertionIndex.Flatten#0] assert codec [C05]: arg1 == indexCodec && ref(arg0) == ref(idx)
+//@   call[index.WriteTo#0] assert index_position [C05]: typeis(arg1, "*v2/internal/io.OffsetWriteSeeker") && wn(arg1) == wrap_s64(wrap_u64(dataSize + header.IndexOffset)) && ref(arg0) == ref(fi)
+//@   call[Header.WriteTo#0] assert header_position [C05]: typeis(arg1, "*v2/internal/io.OffsetWriteSeeker") && wn(arg1) == 11
+//@   call[Header.WriteTo#0] assert header_fields [C05]: arg0.DataSize == dataSize && arg0.DataOffset == header.DataOffset && arg0.IndexOffset == wrap_u64(dataSize + header.IndexOffset) && arg0.Characteristics.Lo == header.Characteristics.Lo
+//@   call[Header.WriteTo#0] assert flag [C05]: fullyidx(arg0.Characteristics.Hi) == ite(storeIdentityCIDs, 1, 0)
+//@   call[Header.WriteTo#0] assert after_index [C06]: ferr == nil && werr == nil
+//@   ensures index_error_reported [C16]: ferr != nil ==> err != nil
